@@ -21,7 +21,7 @@ namespace PV.Prep
 
 /-! ## Keyword records, errors, terms -/
 
-inductive Err | typeError | valueError
+inductive Err | typeError | valueError | zeroDivisionError | indexError
   deriving DecidableEq, Repr, Inhabited
 
 /-- `ftype=` of `scipy.signal.decimate`; `bad` is any other string (`ValueError`). -/
@@ -128,10 +128,15 @@ def DecKwIn.resolve (k : DecKwIn) : DecKw :=
   { n := k.n.getD none, ftype := k.ftype.getD .iir, zeroPhase := k.zeroPhase.getD true }
 
 /-- `scipy.signal.decimate(x, q, **kw)`: unknown keyword → `TypeError`; `ftype` not
-    `'iir'`/`'fir'` → `ValueError`; else the decimated array. -/
+    `'iir'`/`'fir'` → `ValueError` (the `else` branch, before `q` is used); `q = 0` →
+    `ZeroDivisionError` (`cheby1(n, 0.05, 0.8 / q)`, `firwin(n+1, 1. / q)`); `q = 1` with `'fir'` →
+    `ValueError` (`firwin` refuses the cut-off `1.0`), while `q = 1` with `'iir'` is a legal call
+    (Chebyshev low-pass at 0.8·Nyquist, every sample kept); else the decimated array. -/
 def sciDecimate (x : Term) (q : Nat) (kw : DecKwIn) : Except Err Term :=
   if kw.bogus then .error .typeError
   else if kw.resolve.ftype = .bad then .error .valueError
+  else if q = 0 then .error .zeroDivisionError
+  else if q = 1 ∧ kw.resolve.ftype = .fir then .error .valueError
   else .ok (.dec q kw.resolve x)
 
 /-- `scipy.signal.detrend(x, axis=0, **kw)` on an array with `N` rows: unknown keyword →
@@ -425,9 +430,15 @@ structure Spec where
 /-- documented keyword sets (`n`, `ftype ∈ {iir, fir}`, `zero_phase`, and `axis=0`). -/
 def DecKwIn.documented (k : DecKwIn) : Bool := !k.bogus && k.resolve.ftype != .bad
 
+/-- scipy's own condition on the decimation factor: `2 ≤ q`, or `q = 1` with the IIR design. -/
+def decQOk (q : Nat) (kw : DecKwIn) : Bool := decide (2 ≤ q) || (q == 1 && kw.resolve.ftype == .iir)
+
+/-- the decimation call is one scipy accepts: documented keywords and a factor it can design for. -/
+def decOk (q : Nat) (kw : DecKwIn) : Bool := kw.documented && decQOk q kw
+
 /-- is the call one scipy accepts on arrays of the given lengths at sampling frequency `fs`? -/
 def Op.accepted (lens : List Nat) (fs : Rat) : Op → Bool
-  | .decimate _ kw => kw.documented
+  | .decimate q kw => decOk q kw
   | .detrend kw =>
       !kw.bogus && kw.type.getD .linear != .bad &&
         (kw.type.getD .linear == .constant ||
@@ -456,11 +467,32 @@ def MCfg.spec (c : MCfg) (ops : List Op) : Spec := specRun c.n0f c.spec0 ops
 
 /-- decimation factors of the accepted decimations since the last rollback. -/
 def qsStep (qs : List Nat) : Op → List Nat
-  | .decimate q kw => if kw.documented then qs ++ [q] else qs
+  | .decimate q kw => if decOk q kw then qs ++ [q] else qs
   | .rollback => []
   | _ => qs
 def activeQs (ops : List Op) : List Nat := ops.foldl qsStep []
 
 def prodNat (l : List Nat) : Nat := l.foldl (· * ·) 1
+
+/-! ## `pre_multisetup` with its exceptions (what the constructor does with a malformed `ref_ind`) -/
+
+/-- `for ii in range(n_ref): mov_id.remove(ref_id[ii])` — `list.remove` raises `ValueError` when the entry is not
+    (any more) in the list: a duplicated or out-of-range reference. -/
+def removeRefs (mov : List Nat) : List Nat → Except Err (List Nat)
+  | [] => .ok mov
+  | r :: rs => if r ∈ mov then removeRefs (mov.erase r) rs else .error .valueError
+
+/-- `gen.pre_multisetup(dataList, reflist)` as it is: `n_setup = len(dataList)` (surplus reference lists are
+    ignored, a missing one is an `IndexError`), per setup the removals, then `.reshape(n_ref, -1)` /
+    `.reshape(n_sens - n_ref, -1)`, which raise `ValueError` on an empty selection (no reference / no roving channel). -/
+def preMultisetupChecked (nch : Nat → Nat) : List Term → List (List Nat) → Except Err (List Split)
+  | [], _ => .ok []
+  | _ :: _, [] => .error .indexError
+  | y :: ys, r :: rs => do
+      let mov ← removeRefs (List.range (y.ncols nch)) r
+      if r = [] ∨ mov = [] then .error .valueError
+      else do
+        let rest ← preMultisetupChecked nch ys rs
+        pure ({ ref := r, mov := mov, y := y } :: rest)
 
 end PV.Prep
